@@ -75,6 +75,8 @@ def plan(tier, seed):
     for c in range(8):
         shards.append(("hist", tier, mags[0], c, 8))
     shards.append(("callers", tier, mags[0]))
+    for gi in ((3, 12) if tier == "quick" else (3, 12, 21, 30)):
+        shards.append(("rgfit", tier, gi))
     k = seed % len(shards)
     return shards[k:] + shards[:k]
 
@@ -401,7 +403,75 @@ def _mods():
     return tr, cf_mod, pbp, par_mod
 
 
+def _run_rgfit(desc):
+    """the global-parameter fit of refinegrains (fit / gof): whichever single geometry parameter is being varied, after gof(new value)
+    every grain's lab coordinates and the g-vectors the object holds are those of the reference formulas for the CURRENT parameters"""
+    _, tier, gi = desc
+    import io, contextlib, shutil
+    from ImageD11 import refinegrains, transform as tr, parameters as P
+    from vt.props import c09
+    sh = Shard()
+    pars = c09.geometries("quick")[gi]
+    truth = c09.true_grains(2, 0)
+    peaks = c09.simulate(tr, pars, truth)
+    wd = os.path.join(c09.WORK, "c01_rg_%d" % os.getpid())
+    shutil.rmtree(wd, ignore_errors=True)
+    os.makedirs(wd)
+    try:
+        fn = os.path.join(wd, "p.flt")
+        with open(fn, "w") as fh:
+            fh.write("#  sc  fc  omega  Number_of_pixels  avg_intensity  sum_intensity\n")
+            for k in range(len(peaks)):
+                fh.write("%.4f  %.4f  %.4f  %.0f  %.4f  %.4f\n" % (peaks[k, 0], peaks[k, 1], peaks[k, 2], 10, 100.0, 1000.0))
+        for pname in ("tilt_x", "tilt_y", "tilt_z", "distance", "y_center", "z_center", "wedge", "chi", "wavelength", "y_size", "z_size", "t_x"):
+            with contextlib.redirect_stdout(io.StringIO()):
+                o = refinegrains.refinegrains(tolerance=0.05, OmFloat=False)
+                o.parameterobj = P.parameters(**pars)
+                for k_, s_ in o.stepsizes.items():
+                    o.parameterobj.stepsizes[k_] = s_
+                o.loadfiltered(fn)
+                for gidx, (ubi, t) in enumerate(truth):
+                    o.grainnames.append(gidx)
+                    o.ubisread[gidx] = ubi.copy()
+                    o.translationsread[gidx] = t.copy()
+                o.generate_grains()
+                o.parameterobj.varylist = [pname]
+                o.fit(maxiters=1)
+                newval = o.parameterobj.parameters[pname] + 3.0 * o.stepsizes[pname]
+                o.gof([newval])
+            cur = dict(o.parameterobj.parameters)
+            case = {"kind": "rgfit", "geometry": gi, "varied": pname, "value": float(newval)}
+            det = {k: cur[k] for k in ("distance", "y_center", "z_center", "y_size", "z_size", "tilt_x", "tilt_y", "tilt_z", "o11", "o12", "o21", "o22")}
+            bad = False
+            for key in o.grains_to_refine:
+                g = o.grains[key]
+                want = tr.compute_xyz_lab(np.array([g.sc, g.fc]), **det).T
+                if np.abs(np.asarray(g.peaks_xyz) - want).max() > 1e-6 * max(1.0, np.abs(want).max()):
+                    sh.violation("refinegrains.gof:lab-coordinates-not-those-of-the-current-parameters", dict(case, grain=key[0]),
+                                 {"max_diff": float(np.abs(np.asarray(g.peaks_xyz) - want).max())})
+                    bad = True
+                    break
+            if not bad:
+                g = o.grains[o.grains_to_refine[-1]]
+                t = g.translation if pname != "t_x" else np.array([newval, g.translation[1], g.translation[2]])
+                xyz = tr.compute_xyz_lab(np.array([g.sc, g.fc]), **det)
+                sign = cur["omegasign"]
+                tth, eta = tr.compute_tth_eta_from_xyz(xyz, g.om * sign, t_x=cur["t_x"], t_y=cur["t_y"], t_z=cur["t_z"], wedge=cur["wedge"], chi=cur["chi"])
+                gref = tr.compute_g_vectors(tth, eta, g.om * sign, float(cur["wavelength"]), wedge=cur["wedge"], chi=cur["chi"])
+                if np.asarray(o.gv).shape != gref.T.shape or np.abs(np.asarray(o.gv) - gref.T).max() > 1e-9:
+                    sh.violation("refinegrains.gof:g-vectors-not-those-of-the-current-parameters", case, {"max_diff": float(np.abs(np.asarray(o.gv) - gref.T).max())})
+            sh.evaluations += 1
+            sh.nontrivial += 1
+            sh.outcomes.add(("rgfit", pname))
+        sh.sample(case, limit=1)
+    finally:
+        shutil.rmtree(wd, ignore_errors=True)
+    return sh
+
+
 def run_shard(desc):
+    if desc[0] == "rgfit":
+        return _run_rgfit(desc)
     if desc[0] == "sched":
         return _run_sched(desc)
     if desc[0] == "hist":
@@ -417,6 +487,13 @@ def run_shard(desc):
             continue
         case = {"mag": mg, "config": idx, "pars": pars, "tier": tier}
         check_config(sh, mods, pars, sc, fc, om, case, full=(idx // nch) % 4 == 0 or tier == "thorough")
+        if (idx // nch) % 8 == 5:
+            # the same configuration with the detector BEHIND the sample (back-reflection: two-theta beyond 90 degrees) and, for the
+            # next one, close to the sample (rays far off the axis)
+            for dist, tag in ((-pars["distance"], "back-reflection"), (pars["distance"] * 0.02, "very close detector")):
+                p2 = dict(pars, distance=dist)
+                check_config(sh, mods, p2, sc, fc, om, dict(case, pars=p2, variant=tag), full=False)
+                sh.evaluations += 1
         sh.evaluations += 1
         if non >= 2:
             sh.nontrivial += 1
@@ -458,6 +535,10 @@ def replay(case):
             r = _run_hist(("hist", "thorough", case["mag"], c, 8))
             sh.violations += [v for v in r.violations if all(v["case"][k] == case[k] for k in ("config_a", "config_b", "variant", "fast"))]
         return (not sh.violations), {"violations": sh.violations[:3]}
+    if case.get("kind") == "rgfit":
+        r = _run_rgfit(("rgfit", "quick", case["geometry"]))
+        v = [x for x in r.violations if x["case"]["varied"] == case["varied"]]
+        return (not v), {"violations": v[:3]}
     if case.get("kind") == "callers":
         r = _run_callers(("callers", "thorough", case["mag"]))
         return (not r.violations), {"violations": r.violations[:3]}
